@@ -438,25 +438,27 @@ func (d *Decoder) Style() Style {
 // to bother parsing any children.
 // All it does is look for the end of the pre block and line breaks.
 func (d *Decoder) scanPre(data []byte, atEOF bool) (advance int, token []byte, err error) {
+	// Only ever look at the first buffered line: atEOF means that no more data
+	// will follow, not that the buffer holds nothing but the last line.
+	newLineIDX := bytes.IndexByte(data, '\n')
 	switch idx := bytes.Index(data, fence); {
 	case idx == 0 && !atEOF && len(data) == len(fence):
 		// We need to make sure it's followed by a newline, so get more data.
 		return 0, nil, nil
-	case idx == 0 && (atEOF || (len(data) > len(fence) && data[len(fence)] == '\n')):
+	case idx == 0 && ((atEOF && newLineIDX == -1) || newLineIDX == len(fence)):
 		d.mask |= BlockPreEnd
 		d.clearMask |= BlockPre | BlockPreEnd
 		l := len(fence)
-		if !atEOF {
+		if newLineIDX == len(fence) {
 			l++
 		}
 		return l, data[:l], nil
 	}
-	if atEOF {
-		return len(data), data, nil
-	}
-	newLineIDX := bytes.IndexByte(data, '\n')
 	if newLineIDX >= 0 {
 		return newLineIDX + 1, data[:newLineIDX+1], nil
+	}
+	if atEOF {
+		return len(data), data, nil
 	}
 	return 0, nil, nil
 }
